@@ -145,6 +145,24 @@ func render(doc writers.LDoc, lay writers.Layout, faults []fault) ([]byte, []sit
 				if o.Stream {
 					o.LengthOverride = f.Value
 				}
+			case "nest":
+				// the object (or the stream's data, left unfiltered) becomes a run of
+				// opening delimiters: Value = "<open>|<close>|<count>|<balanced 0/1>"
+				parts := strings.Split(f.Value, "|")
+				if len(parts) == 4 {
+					n := 0
+					fmt.Sscan(parts[2], &n)
+					text := strings.Repeat(parts[0], n)
+					if parts[3] == "1" {
+						text += strings.Repeat(parts[1], n)
+					}
+					if o.Stream {
+						o.Dict = strings.ReplaceAll(o.Dict, "/Filter", "/XFilter")
+						o.Data = []byte(text)
+					} else {
+						o.Body = text
+					}
+				}
 			case "filter":
 				// the stream announces another filter (and decode parameters): Value is
 				// the new "/Filter ... /DecodeParms ..." text; the old keys are renamed
@@ -338,6 +356,36 @@ func filterValues() []string {
 		}
 	}
 	return out
+}
+
+// nestValues: runs of opening delimiters, unbalanced (the parser must give up without
+// building an error message per level) and balanced (it must not recurse per level
+// without bound): 20 thousand and 6 million levels.
+func nestValues(tier string) []string {
+	var out []string
+	counts := []int{20000, 6000000}
+	for _, sh := range [][2]string{{"[", "]"}, {"<</A ", ">>"}, {"[<</A ", ">>]"}} {
+		for _, n := range counts {
+			for _, bal := range []string{"0", "1"} {
+				out = append(out, fmt.Sprintf("%s|%s|%d|%s", sh[0], sh[1], n, bal))
+			}
+		}
+	}
+	return out
+}
+
+// nestFaults: every object and every stream of one document, replaced by deep nesting.
+func nestFaults(c *hx.Ctx, d int, seed uint64) {
+	doc, lay := docFor(seed)
+	_, info, _ := render(doc, lay, nil)
+	for i, si := range info {
+		for j, v := range nestValues(c.Tier) {
+			if c.Tier == "quick" && (i+j)%3 != 0 {
+				continue
+			}
+			runPDF(c, kase{Format: "pdf", Doc: d, Seed: seed, Faults: []fault{{Kind: "nest", Ordinal: si.ordinal, Value: v}}, Layout: lay}, "p")
+		}
+	}
 }
 
 // filterFaults runs every filterValues entry on every stream of one document.
@@ -571,6 +619,23 @@ func htmlFaults(c *hx.Ctx, seed uint64, budget int) {
 // rawParsers feeds hostile byte strings straight to the low-level parsers.
 func rawParsers(c *hx.Ctx, seed uint64, n int) {
 	r := hx.NewRng(seed)
+	// deep nesting first: unbalanced and balanced runs of opening delimiters
+	for _, v := range nestValues(c.Tier) {
+		parts := strings.Split(v, "|")
+		cnt := 0
+		fmt.Sscan(parts[2], &cnt)
+		s := strings.Repeat(parts[0], cnt)
+		if parts[3] == "1" {
+			s += strings.Repeat(parts[1], cnt)
+		}
+		k := map[string]interface{}{"format": "raw-nest", "open": parts[0], "close": parts[1], "count": cnt, "balanced": parts[3] == "1"}
+		c.Current(k)
+		c.Guard("C02/raw-core-parser", k, 10, func() { core.NewParser(strings.NewReader(s)).ParseObject() })
+		c.Guard("C02/raw-contentstream", k, 10, func() { contentstream.NewParser([]byte(s)).Parse() })
+		c.Rep.OracleChecks += 2
+		c.Count("raw-nest")
+		c.Case(fmt.Sprint(k), true)
+	}
 	frags := []string{"<<", ">>", "[", "]", "(", ")", "<", ">", "/A", "1", "0", "R", "obj", "endobj", "stream\n", "endstream", " ", "%c\n", "true", "null", "9223372036854775807", "-", ".", "#", "\\", "BT", "ET", "Tj", "TJ", "'", "\"", "BI", "ID", "EI", "beginbfchar", "endbfchar", "beginbfrange", "endbfrange", "<0041>", "begincodespacerange", "endcodespacerange", "1 "}
 	for i := 0; i < n; i++ {
 		var b strings.Builder
@@ -642,7 +707,7 @@ func cmapExtremes(c *hx.Ctx, seed uint64, n int) {
 }
 
 func Run(c *hx.Ctx) {
-	c.Rep.Rule = "valid documents of all seven formats from the harness writers (PDF in random physical layouts, DOCX, ODT, XLSX, PPTX, EPUB, HTML) x every single fault of the catalogue at every site (numbers -> 0,-1,2^31,2^63-1; references -> self/root/missing; delimiters removed/added; objects/members dropped/duplicated; stream data flipped/truncated; every stream re-announced under every filter name/abbreviation/chain with edge decode parameters (full sweep on the first documents); /Length, xref entries, /W, /Prev, /Size, trailer; truncation at token boundaries; targeted field rewrites) + sampled double faults + byte mutation + hostile token soup into the raw parsers; every case runs 5-6 public entry points under a 10 s deadline and a 3 GiB heap limit; every case is non-trivial"
+	c.Rep.Rule = "valid documents of all seven formats from the harness writers (PDF in random physical layouts, DOCX, ODT, XLSX, PPTX, EPUB, HTML) x every single fault of the catalogue at every site (numbers -> 0,-1,2^31,2^63-1; references -> self/root/missing; delimiters removed/added; objects/members dropped/duplicated; stream data flipped/truncated; objects and stream data replaced by 20 thousand / 6 million nested opening delimiters (balanced and not); every stream re-announced under every filter name/abbreviation/chain with edge decode parameters (full sweep on the first documents); /Length, xref entries, /W, /Prev, /Size, trailer; truncation at token boundaries; targeted field rewrites) + sampled double faults + byte mutation + hostile token soup into the raw parsers; every case runs 5-6 public entry points under a 10 s deadline and a 3 GiB heap limit; every case is non-trivial"
 	xrefStreamOps(c)
 	gridOps(c)
 	ptreeOps(c)
@@ -668,6 +733,9 @@ func Run(c *hx.Ctx) {
 	}
 	for d := 0; d < c.N(2, 12); d++ {
 		filterFaults(c, d, c.Seed*1000+uint64(d))
+	}
+	for d := 0; d < c.N(1, 6); d++ {
+		nestFaults(c, d, c.Seed*1000+uint64(d))
 	}
 	xlsxFaults(c, c.Seed, c.N(250, 5000))
 	for _, f := range ZipFormats {
